@@ -247,10 +247,33 @@ class HistGen:
             kinds += ['cong', 'cong']
         if self.sig.sorts:
             kinds += ['trans']
-        kinds += ['sat4']
+        kinds += ['sat4', 'chain']
         if p['nums'] and not p['dl'] and any(f[2] != 'Bool' and len(f[1]) == 1 and f[1][0] in p['nums'] for f in self.sig.funs):
             kinds += ['iface', 'iface']
         k = r.choice(kinds)
+        if k == 'chain':
+            # an implied unit (a follows from (a or b), (a or not b) only by a conflict), a clause that passes it on (not a or c)
+            # and its refutation (not c), spread over assertion levels: the refutation runs through level guards and through a
+            # literal that became fixed at level 0 after the clauses using it were added
+            if self.pool and len(self.pool) >= 3:
+                a, b, c = r.sample(self.pool, 3)
+            else:
+                a, b, c = tg.atom(1), tg.atom(1), tg.atom(1)
+            if len({pr(a, False), pr(b, False), pr(c, False)}) < 3:
+                return [tg.boolean(2)]
+            if r.random() < 0.5:
+                a = gen.negate(a)
+            if r.random() < 0.5:
+                c = gen.negate(c)
+            out = [T('app', 'Bool', head='or', args=[a, b]), T('app', 'Bool', head='or', args=[a, gen.negate(b)])]
+            r.shuffle(out)
+            if r.random() < 0.6:
+                out.append('push')
+            out.append(T('app', 'Bool', head='or', args=[gen.negate(a), c]))
+            if r.random() < 0.6:
+                out.append('push')
+            out.append(gen.negate(c))
+            return out
         if k == 'sat4':
             # the four binary clauses over two atoms: unsatisfiable, but only a decision followed by a conflict shows it
             # (no unit propagation at level 0), so the refutation comes from conflict analysis, not from preprocessing
@@ -465,7 +488,12 @@ class HistGen:
                     self.emit_assert(step)
                 continue
             if self.pending:
-                self.emit_assert(self.pending.pop(0))
+                step = self.pending.pop(0)
+                if step == 'push':
+                    if incremental:
+                        self.do_push()
+                else:
+                    self.emit_assert(step)
                 continue
             if incremental and c < o['p_push']:
                 self.do_push()
@@ -515,7 +543,9 @@ class HistGen:
             else:
                 break
         while self.pending:
-            self.emit_assert(self.pending.pop(0))
+            step = self.pending.pop(0)
+            if step != 'push':
+                self.emit_assert(step)
         if o['final_check'] and (not self.cmds or self.cmds[-1]['k'] != 'check-sat' or checks == 0):
             if self.cmds and self.cmds[-1]['k'] not in ('check-sat',) and self.n_live() > 0:
                 self.cmds.append({'k': 'check-sat', 'text': '(check-sat)'})
